@@ -430,6 +430,11 @@ def _deg0_tolerance(spec, agg, J, tJ, t, pow2, seed, r64=None, rt64=None):
         dG = 32.0 * max(m, n) * e
         dphi = c * min(math.sqrt(dG), dG / g0n if g0n > 0 else np.inf)
         gamma = max(sqrt_phi - dphi, 0.0) / lam
+        if gamma <= 2.0 * dd:
+            # |R^T w_opt| is of the order of the perturbations of the normalised Gramian / of the solver tolerance: direction AND
+            # length (lam = sqrt_phi / gamma) of the correction are numerically undetermined in this dtype (nearly cancelling
+            # rows, weights in the thousands): outside the clause, like the ambiguous-rank cases of the pinv based aggregators
+            return None
         turn = 2.0 if gamma <= 0 else min(2.0, 4.0 * dd / gamma)
         return base + S * ((sqrt_phi + dphi) * turn + dphi)
     if name in ("IMTLG", "AlignedMTL", "ConFIG"):
